@@ -301,6 +301,86 @@ impl<T: Ord> PairingHeap<T> {
     }
 }
 
+#[cfg(all(futures_intrusive_verif, feature = "alloc"))]
+impl<T: Ord> PairingHeap<T> {
+    /// Read-only pre-order walk for the verification harness. `is_live` is
+    /// asked for every node address before the node is dereferenced; `visit`
+    /// is called for every live node. Checks parent/sibling links and the
+    /// heap order. Stops at the first inconsistency.
+    pub fn verif_walk(
+        &self,
+        is_live: crate::verif::IsLive<'_>,
+        visit: &mut dyn FnMut(usize, &T),
+    ) -> Result<(), crate::verif::WalkError> {
+        use crate::verif::WalkError;
+        // (node, expected parent, expected previous sibling)
+        let mut stack: alloc::vec::Vec<(
+            NonNull<HeapNode<T>>,
+            Option<NonNull<HeapNode<T>>>,
+            Option<NonNull<HeapNode<T>>>,
+        )> = alloc::vec::Vec::new();
+        if let Some(root) = self.root {
+            stack.push((root, None, None));
+        }
+        let mut count = 0usize;
+        while let Some((node, parent, prev)) = stack.pop() {
+            let addr = node.as_ptr() as usize;
+            count += 1;
+            if count > crate::verif::MAX_WALK {
+                return Err(WalkError {
+                    what: "heap walk does not terminate",
+                    addr,
+                });
+            }
+            if !is_live(addr) {
+                return Err(WalkError {
+                    what: "heap contains a node which is not alive",
+                    addr,
+                });
+            }
+            // Safety: the harness vouched for the node being alive
+            let node_ref = unsafe { &*node.as_ptr() };
+            if node_ref.parent != parent {
+                return Err(WalkError {
+                    what: "parent pointer does not match the walk",
+                    addr,
+                });
+            }
+            if node_ref.prev != prev {
+                return Err(WalkError {
+                    what: "prev pointer does not match the walk",
+                    addr,
+                });
+            }
+            if parent.is_none() && node_ref.next.is_some() {
+                return Err(WalkError {
+                    what: "root has a sibling",
+                    addr,
+                });
+            }
+            if let Some(p) = parent {
+                // Safety: the parent was visited (and vouched for) before
+                let parent_ref = unsafe { &*p.as_ptr() };
+                if node_ref.data < parent_ref.data {
+                    return Err(WalkError {
+                        what: "heap order violated",
+                        addr,
+                    });
+                }
+            }
+            visit(addr, &node_ref.data);
+            // Visit the next sibling after the subtree of this node
+            if let Some(next) = node_ref.next {
+                stack.push((next, parent, Some(node)));
+            }
+            if let Some(child) = node_ref.first_child {
+                stack.push((child, Some(node), None));
+            }
+        }
+        Ok(())
+    }
+}
+
 #[cfg(all(test, feature = "std"))]
 mod tests {
     use super::{HeapNode, PairingHeap};
